@@ -228,6 +228,67 @@ def exec_hook_case(consts, h, rnd, cases_by_key):
         else:
             ok = out == ("exc", "AttributeError") and d == {"r": "R", "w": "W", "n": "N"}
         return {"result": list(out), "underlying": d}, ok
+    if h["kind"] in ("class_of_hooked", "forwarder"):
+        hook_calls = []
+
+        def mk_hooked():
+            class Hooked(object):
+                exposed_cval = "CV"
+                plainc = "PC"
+
+                def __init__(self):
+                    self.data = {"ok": "V"}
+
+                def _rpyc_getattr(self, name):
+                    hook_calls.append(("get", name))
+                    return self.data[name]
+
+                def _rpyc_setattr(self, name, value):
+                    hook_calls.append(("set", name))
+                    self.data[name] = value
+
+                def _rpyc_delattr(self, name):
+                    hook_calls.append(("del", name))
+                    del self.data[name]
+            return Hooked
+
+        def mk_plain():
+            class Plain(object):
+                exposed_cval = "CV"
+                plainc = "PC"
+            return Plain
+        fx = Fixture(cfgd)
+        try:
+            if h["kind"] == "class_of_hooked":
+                target, twin = mk_hooked(), mk_plain()
+                name = "cval" if h["listed"] else "plainc"
+            else:
+                inner = mk_hooked()()
+
+                class Wrapper(object):
+                    def __init__(self, inner_):
+                        self.__dict__["_inner"] = inner_
+                        self.__dict__["own"] = "OWN"
+
+                    def __getattr__(self, name):
+                        return getattr(self.__dict__["_inner"], name)
+
+                class PlainW(object):
+                    def __init__(self):
+                        self.own = "OWN"
+                target, twin = Wrapper(inner), PlainW()
+                name = "ok" if h["listed"] else "own"
+            outs = []
+            for obj in (target, twin):
+                proxy = fx.push(obj)
+                outs.append(fx.request(handler, proxy, name, *extra))
+                del fx.stash[:]
+        finally:
+            fx.close()
+        ok = outs[0] == outs[1] and not hook_calls
+        if h["kind"] == "forwarder":
+            ok = ok and inner.data == {"ok": "V"}
+        return {"result_on_object": list(outs[0]), "result_on_hookless_twin": list(outs[1]), "hook_calls": hook_calls}, ok
     # service: reads by configuration, writes and deletes always refused
     class Svc(rpyc.Service):
         exposed_val = "SV"
@@ -314,7 +375,10 @@ def probe_decisions(side_client, consts, proxy_of):
     return tuple(res)
 
 
-EXPECTED = {"default": (False, False, True, False), "public": (False, True, True, False), "classic": (True, True, False, True)}
+EXPECTED = {"default": (False, False, True, False), "public": (False, True, True, False), "classic": (True, True, False, True),
+            "classic_shared": (True, True, False, True)}
+# the application's one configuration mapping, handed to every "public" connection and to "classic_shared" ones
+SHARED_PUBLIC = {"allow_public_attrs": True}
 
 
 class HistConn(object):
@@ -329,8 +393,10 @@ class HistConn(object):
                 hc.stash.append(x)
         if kind == "classic":
             svc, cfg = rpyc.SlaveService(), {}
+        elif kind == "classic_shared":
+            svc, cfg = rpyc.SlaveService(), SHARED_PUBLIC
         else:
-            svc, cfg = rpyc.VoidService(), ({"allow_public_attrs": True} if kind == "public" else {})
+            svc, cfg = rpyc.VoidService(), (SHARED_PUBLIC if kind == "public" else {})
         self.pair = Pair(Cli(), svc, config_b=cfg, patch_time=False)
         t = Thing()
         t._hid, t.pub, t.exposed_exp, t.pub2 = "H", "P", "E", "P2"
@@ -385,6 +451,12 @@ def histories(chk, g, consts, rnd, max_paths):
                         chk.violation("isolation:%s" % hc.kind, "C06 after %s the %s connection #%d allows (read private, read public, "
                                       "read exposed, write public) = %s, its own configuration says %s" % (labels, hc.kind, i, got, want),
                                       {"mode": "history", "labels": labels})
+                if SHARED_PUBLIC != {"allow_public_attrs": True}:
+                    chk.violation("shared-config-mutated", "C06 after %s the application's configuration mapping, which it passes to "
+                                  "several connections, was modified by a connection: %s" % (labels, dict(SHARED_PUBLIC)),
+                                  {"mode": "history", "labels": labels})
+                    SHARED_PUBLIC.clear()
+                    SHARED_PUBLIC["allow_public_attrs"] = True
                 now = {k: v for k, v in protocol.DEFAULT_CONFIG.items()}
                 if now != pristine:
                     diff = {k: (pristine.get(k), now.get(k)) for k in set(now) | set(pristine) if now.get(k) != pristine.get(k)}
